@@ -134,6 +134,25 @@ Proof. exact listed_keys_signed. Qed.
 Print Assumptions C01_listed_keys_signed.
 
 
+(* ---- composition with C04 (uniqueness of the VRF output) ------------------------------------- *)
+(* hypothesis: for one key and one (seed, step, index) all accepted proofs yield the same VRF
+   output - C04_vrf_output_unique, proved in coq/C04 for strict decoding under DLEQ soundness.
+   Then a validator has ONE weight: any proof / claimed weight that passes the sortition check
+   for the validator of a counted vote claims exactly the counted weight.  Grinding encodings or
+   nonces cannot inflate a vote. *)
+Theorem C01_weight_is_the_unique_sortition_weight :
+  forall (O : oracles),
+    (forall pk seed role index p p' h h',
+        o_vrf O pk seed role index p = Some h -> o_vrf O pk seed role index p' = Some h' -> h = h') ->
+    forall V c step votes x bk mk,
+      In x (counted_from O V c step [] votes) ->
+      recover_signer (c_lb c) (fst x) = Some (snd x, bk, mk) ->
+      forall p' sub',
+        verify_sortition O mk (c_seed c) (c_index c) step p' sub' (c_thr c) (v_stake (snd x)) (lb_total (c_lb c)) = Some true ->
+        sub' = vt_votes (fst x).
+Proof. exact counted_weight_unique. Qed.
+Print Assumptions C01_weight_is_the_unique_sortition_weight.
+
 (* ---- malformed credentials: crash or reject, never accept ------------------------------------- *)
 (* [o_vrf_crash O proof = true]: ProofToHash panics on this proof (a scalar that is 0 or >= the
    group order).  The outcome type of the model has three kinds of values: Accept, the rejects,
